@@ -55,7 +55,7 @@ Print Assumptions C16_m3u_save_confined.
 Theorem C16_m3u_rename_confined : forall fs base dirp b d f' bb,
   walk false fs FUEL [] dirp = Some (d, S f') -> resolve fs base = Ok bb -> is_dot b = false ->
   (is_link_at fs d b = true -> is_prefix bb d = true) ->
-  forall newname l, m3u_rename fs base (dirp ++ [b]) newname = Acts l ->
+  forall newname l, is_dot newname = false -> m3u_rename fs base (dirp ++ [b]) newname = Acts l ->
   Forall (fun t => touch_inside bb t = true) l.
 Proof. exact rename_confined_sec. Qed.
 Print Assumptions C16_m3u_rename_confined.
@@ -92,6 +92,14 @@ Theorem C16_scope_hypothesis_necessary :
   /\ is_link_at w_fs [[114]; [111]] [108] = true.
 Proof. exact scope_necessary_lemma. Qed.
 Print Assumptions C16_scope_hypothesis_necessary.
+
+(* ... and its hypothesis on the new name is necessary (the kernel refuses this rename). *)
+Theorem C16_rename_dot_targets_playlists_dir_entry :
+  m3u_rename w_fs w_base (w_base ++ [[97]]) [46] =
+    Acts [TCreateIn w_base; TEntry w_base [97]; TEntry w_base [97]; TEntry [[114]] [105]]
+  /\ touch_inside w_base (TEntry [[114]] [105]) = false.
+Proof. exact rename_dot_target_lemma. Qed.
+Print Assumptions C16_rename_dot_targets_playlists_dir_entry.
 
 Theorem C16_confined_nonvacuous :
   let dirp := [[114]; [105]; [46; 46]; [105]] in
